@@ -84,3 +84,12 @@ CHECKS["C16"] = dict(
  text="For ALL states, blocks (also non-symplectic) and hbar: applying a block on pi(M) to the relabelled Gaussian state equals relabelling the result, for every permutation pi and ordered tuple M (d<=3 quick, d<=4 thorough), and two blocks on disjoint ordered tuples commute; the same for the passive simulator's interferometer accumulation. _remap_modes/_remap_modes_inverse/_delete_modes_from_active and the Fock simulators only by bounded stand-ins.",
  note="shapes enumerated, arity <= 2; Fock index lists not under contract; outcome-tuple relabelling relies on C03's structural contracts",
 )
+ENGINES[0]["serves_properties"] = ["C07", "C08", "C14", "C16", "C18", "C20"]
+ENGINES[1]["serves_properties"] = ["C03", "C06", "C08", "C11", "C12", "C13", "C14", "C16", "C18", "C20"]
+ENGINES[3]["serves_properties"] = ["C03", "C11", "C12", "C13", "C18", "C20"]
+CHECKS["C18"] = dict(
+ engine="symtrace (symbolic coefficients) + frames + rtc", category="proof", design_ref="DESIGN.md 5/C18",
+ technique="post-condition den(result) = linear combination, checked by exact symbolic field arithmetic on the real operator methods for every expression-tree shape; positional-parameter contracts read from class ASTs; frames obligation for nesting; bounded text-level round trips",
+ text="For ALL (non-zero) coefficient values and every expression tree over +, scalar *, / with up to 4 (quick) / 5 (thorough) leaves, the real NumberState/FockStateVector operator methods produce a preparation whose amplitude map equals the linear combination denoted by the tree; for every class exportable to Blackbird the params dict order equals the constructor signature, the name maps are mutually inverse and modes pass through; registering a program inside another writes nothing reachable from the inner program and maps modes through the register. Text-level round trips (blackbird, exec(as_code), from_dict, copy) and nested register mappings are bounded stand-ins. Two defects found and fixed in /repo.",
+ note="tree shapes enumerated; blackbird serializer and exec are external; deepcopy assumed structural",
+)
